@@ -163,11 +163,12 @@ Theorem C14_schedule_independent_of_config : forall r loopMS, wf r loopMS -> for
 Proof. exact schedule_independent_of_config. Qed.
 Print Assumptions C14_schedule_independent_of_config.
 
-(** Generated subtitle tracks (timesubsstpp_/timesubswvtt_): as the code is, every media segment of
-    such a track is answered 404 as soon as a statuscode_ pattern is configured, scheduled or not
-    (finding c14-timesubs-404).  With proposed_fixes/C14-statuscode-generated-subtitles.diff they are
-    looked up in the reference track like audio with timescale 1000 and sample duration 1, and
-    C14_status_number / C14_status_audio_time apply to them. *)
+(** Generated subtitle tracks (timesubsstpp_/timesubswvtt_): since fccb54a they are looked up in the
+    reference track like audio with timescale 1000 and sample duration 1, and C14_status_number /
+    C14_status_audio_time apply to them (example below).  Before, every media segment of such a
+    track was answered 404 as soon as a statuscode_ pattern was configured, scheduled or not: the
+    witness is about that model variant (subsAnswerUnrepaired), which the harness uses when it finds
+    the repair reverted. *)
 Theorem C14_timesubs_refuted :
   scheduled w_rep2 [w_code 8 1 503] "timestpp-en" 40 200 = 200 /\
   subsAnswerUnrepaired (w_cfg 0 0) [w_code 8 1 503] 100000 200 = AStatus 404.
